@@ -373,6 +373,11 @@ Proof.
     win11; stdw; eauto.
     all: try solve [ intros Ho Hs; apply D1; [exact Ho|]; unfold synced in *; cbn in Hs;
                      destruct (phys (mems s m)); [reflexivity|exact Hs] ].
+  - (* LTermEnd *)
+    destruct (locked (mems s m)) eqn:El; [discriminate|].
+    destruct (ctl (mems s m)); try discriminate; inj; unfold set_mem; win11; stdw; eauto.
+    all: try solve [ intros Ho Hs; apply D1; [exact Ho|]; unfold synced in *; cbn in Hs;
+                     destruct (phys (mems s m)); [reflexivity|exact Hs] ].
 Qed.
 
 (* the stored window never decreases (under `allowed`) *)
@@ -443,4 +448,5 @@ Proof.
   - destruct (nth_error (recs s) i) as [r|]; [|discriminate].
     destruct (Nat.eqb (gm r) m && is_pending r); [|discriminate]. inj. apply Hrefl; reflexivity.
   - destruct (locked (mems s m)); [discriminate|]. inj. apply Hrefl; reflexivity.
+  - destruct (locked (mems s m)); [discriminate|]. destruct (ctl (mems s m)); try discriminate; inj; apply Hrefl; reflexivity.
 Qed.
